@@ -151,6 +151,13 @@ def run(tier: str) -> int:
                         if param2 != param or [repr(x) for x in vals2] != [repr(x) for x in vals]:
                             rep.discrepancy([[d, "get_parameterized_sql-differs", h["kind"]]], {"dialect": d, "program": h, "position": pos},
                                             what="get_parameterized_sql() and get_sql(ctx with a parameterizer) disagree")
+                        # ... and with a context that already carries the caller's own (still empty) parameterizer: that one collects the values
+                        p3 = Parameterizer()
+                        param3, vals3 = obj.get_parameterized_sql(ctx.copy(parameterizer=p3))
+                        if param3 != param or [repr(x) for x in vals3] != [repr(x) for x in vals] or [repr(x) for x in p3.values] != [repr(x) for x in vals]:
+                            rep.discrepancy([[d, "get_parameterized_sql-own-parameterizer", h["kind"]]],
+                                            {"dialect": d, "program": h, "position": pos, "param": param3, "returned": repr(vals3), "collected_by_callers_parameterizer": repr(p3.values)},
+                                            what="get_parameterized_sql(ctx) with the caller's parameterizer in ctx: text / returned values / the parameterizer's values disagree")
                 except Exception as ex:  # noqa
                     rep.discrepancy([[d, pos, "raises:" + type(ex).__name__, h["kind"]]], {"dialect": d, "program": h, "position": pos},
                                     what="rendering raises")
